@@ -13,6 +13,8 @@ QUERIES = [
 ] + [dict(name='attach_detach_stack_%dops' % n, harness=t, entry='h_attach_detach', unwind=7, unwindset=US, rec_unwind=3, timeout=1800, mem_gb=28, tier='quick' if n in (2, 3) else 'thorough',
           shape='%d symbolic Attach/Detach operations over 3 contexts: out-of-order detach, a context attached twice, tokens detached twice (3 ops: depth <= 3 crosses the first stack growth 0->2->6)' % n)
      for (n, t) in ((2, 'c10_s2'),)]
+QUERIES.append(dict(name='attach_script_depth4', harness='c10_s2', entry='h_attach_script', optional_reach=['deep stack: everything unwound leaves the empty context current'], unwind=7, unwindset=US, rec_unwind=3, timeout=1800, mem_gb=28, tier='quick',
+       shape='attach a, b, a, c (depth 4, both stack growth steps, one context attached twice), then one Detach on a symbolically chosen token (top, out of order, the context attached twice)'))
 BOUNDS = ['3 derived contexts, keys over {a, b, ab}', '2 symbolic stack operations (Attach/Detach, depth <= 2, first growth 0->2)']
 OUTSIDE = ['3 or more stack operations (the 3-operation query, which crosses the second growth 2->6, ends with an unwinding-assertion failure in the Detach pop loop at bound 7 that was not triaged before the end of the build - neither claimed nor reported)', 'SetValues (map overload)', 'trace::Scope / WithActiveSpan on top of the stack', 'visibility across threads (thread_local storage duration is a language guarantee; the stack has no other shared state)', 'Token destruction (its destructor detaches)']
 ASSUMPTIONS = ['thread_local stack treated as a plain global (single thread)', 'shared_ptr release does not run disposers (values, not lifetimes)']
